@@ -40,6 +40,10 @@ def run(rep, rng, tier, replay=None):
         bad = []
         if fi["u_trop"] != ONE or fi["v_trop"] != ONE:
             bad.append("returned u_trop / v_trop are not 1")
+        # "in the rescaled gauge": u_trop = v_trop = 1 must be what the true tropical polynomials give at the returned parameters
+        tn = c07.tropical_normalisation(c, SC.floats(fi["x"]), dod)
+        if tn is not None and math.isfinite(tn) and not rel_close(tn, 1.0, 1e-8 * (2 + D + abs(dod))):
+            bad.append("u_trop = v_trop = 1 are returned, but the largest monomials of U and F at the returned parameters give U_tr^(D/2) V_tr^dod = %r" % tn)
         if not (math.isfinite(u) and math.isfinite(v) and u > 0 and v > 0 and math.isfinite(jac)):
             skipped += 1
             continue
